@@ -20,6 +20,9 @@ F = sc.DEFAULT_FLAGS
 # ------------------------------------------------------------------------------------------------
 
 class Gen:
+  p_ref = 0.5      # share of pg.Ref / inferred values among the `k == 8` atoms
+  static = False   # mutation-free stream (C07): nested sealed containers, Refs to nodes, inferred values
+
   def __init__(self, rng):
     self.r = rng
 
@@ -32,6 +35,13 @@ class Gen:
       return ['s', r.below(3)]
     if k == 7:
       return ['q']
+    if self.static and k >= 7 and r.chance(0.6):
+      return r.weighted([(4, ['R', r.below(64)]), (2, ['R']), (3, ['I']), (2, ['q'])])
+    if k == 8 and r.chance(self.p_ref):
+      # a pg.Ref to a plain list. (References to existing nodes and inferred values make
+      # pyglove evaluate through them whenever a plain container is converted — they are
+      # generated only by the mutation-free stream of C07.)
+      return ['R']
     return None
 
   def ref(self):
@@ -59,10 +69,10 @@ class Gen:
       # nested containers are never constructed sealed (the harness has to build flagged nested
       # containers before their holder, so sealing them would seal offered nodes early); the
       # top-level container of `new` may be sealed, which seals the whole value
-      flags = [False, r.chance(0.7), r.chance(0.3)]
+      flags = [self.static and r.chance(0.5), r.chance(0.7), r.chance(0.3)]
     n = r.weighted([(2, 0), (4, 1), (4, 2), (2, 3), (1, 4)])
     if flagged and k == 9:
-      return ['o', r.below(2), [False, True, flags[2]],
+      return ['o', r.below(2), [flags[0] and self.static, True, flags[2]],
               [[r.below(3), self.value(depth - 1, refs, flagged)] for _ in range(min(n, 3))]]
     if k % 2 == 0:
       keys = []
@@ -74,7 +84,10 @@ class Gen:
         keys.append(key)
         items.append([key, self.value(depth - 1, refs, flagged)])
       return ['d', flags, items]
-    return ['l', flags, [self.value(depth - 1, refs, flagged) for _ in range(n)]]
+    # (a parent-inferred value directly inside a list makes every evaluated iteration of that
+    # list raise; inferred values are generated under dict keys and object fields only)
+    items = [self.value(depth - 1, refs, flagged) for _ in range(n)]
+    return ['l', flags, [None if v == ['I'] else v for v in items]]
 
   def container(self, depth, refs, flagged):
     for _ in range(20):
@@ -132,7 +145,7 @@ class Gen:
         (4, 'dupdate'), (2, 'dior'),
         (8, 'lset'), (4, 'ldel'), (6, 'lappend'), (7, 'linsert'), (4, 'lextend'), (2, 'liadd'),
         (4, 'lpop'), (2, 'lremove'), (2, 'lclear'), (4, 'lsort'), (4, 'lreverse'), (2, 'limul'),
-        (5, 'lslice'),
+        (6, 'lslice'), (5, 'ldelslice'), (2, 'seal'),
         (4, 'oset'), (9, 'rebind'), (4, 'clone'), (3, 'new')])
     j = {'op': name, 't': r.below(64), 'n': not r.chance(notify_off)}
     if name == 'new':
@@ -163,11 +176,14 @@ class Gen:
       j['rev'] = r.chance(0.4)
     elif name == 'limul':
       j['times'] = r.weighted([(1, -1), (2, 0), (3, 1), (5, 2), (2, 3)])
-    elif name == 'lslice':
-      j['a'] = self.idx()
-      j['b'] = self.idx()
-      j['step'] = r.weighted([(7, 1), (2, 2), (1, 3)])
-      j['vs'] = [self.top_value() for _ in range(r.below(4))]
+    elif name in ('lslice', 'ldelslice'):
+      j['a'] = self.idx() if r.chance(0.8) else None
+      j['b'] = self.idx() if r.chance(0.8) else None
+      j['step'] = r.weighted([(4, None), (4, 1), (4, 2), (2, 3), (4, -1), (3, -2), (1, 0)])
+      if name == 'lslice':
+        j['vs'] = [self.top_value() for _ in range(r.weighted([(2, 0), (4, 1), (4, 2), (3, 3), (1, 4)]))]
+    elif name == 'seal':
+      j['flag'] = r.chance(0.6)
     elif name == 'oset':
       j['key'] = r.below(3)
       j['v'] = self.top_value()
@@ -205,7 +221,12 @@ def exhaustive_small():
               {'op': 'dset', 't': 1, 'key': ['k', 2], 'v': v},
               {'op': 'lslice', 't': 0, 'a': ['abs', 0], 'b': ['abs', 2], 'step': 1, 'vs': [v]},
               {'op': 'rebind', 't': 0, 'pairs': [[[['k', 0], ['abs', 0]], True, v]], 'skip': None}]
-  small += [{'op': 'ldel', 't': 0, 'key': ['abs', 0]}, {'op': 'lpop', 't': 0, 'key': ['neg', 1]},
+  small += [{'op': 'ldelslice', 't': 0, 'a': ['abs', 0], 'b': None, 'step': 2},
+            {'op': 'ldelslice', 't': 0, 'a': None, 'b': ['abs', 0], 'step': -1},
+            {'op': 'ldelslice', 't': 0, 'a': ['abs', 0], 'b': ['abs', 2], 'step': None},
+            {'op': 'lslice', 't': 0, 'a': None, 'b': None, 'step': -1, 'vs': [1, ['r', 6], ['d', list(F), []]]},
+            {'op': 'lslice', 't': 0, 'a': ['abs', 0], 'b': None, 'step': 2, 'vs': [['r', 2], 5]},
+            {'op': 'ldel', 't': 0, 'key': ['abs', 0]}, {'op': 'lpop', 't': 0, 'key': ['neg', 1]},
             {'op': 'lreverse', 't': 0}, {'op': 'lsort', 't': 0, 'ranks': [2, 1, 0], 'rev': False},
             {'op': 'lclear', 't': 0}, {'op': 'limul', 't': 0, 'times': 2}, {'op': 'dclear', 't': 0},
             {'op': 'dpopitem', 't': 0}, {'op': 'ddel', 't': 0, 'key': ['k', 0]},
@@ -233,7 +254,8 @@ class C01(Prop):
   rule = ('histories: 1-3 constructions from nested values (Dict/List/2 Object classes, depth <= 4, '
           'width <= 4, flags, shared sub-objects) followed by 1-40 operations drawn from the whole '
           'mutator surface of pg.Dict / pg.List / pg.Object (item and attribute assignment and '
-          'deletion, every list and dict mutator incl. the in-place operators, slice assignment, rebind '
+          'deletion, every list and dict mutator incl. the in-place operators, slice assignment and slice deletion '
+          '(any start / stop / step incl. negative and zero steps, extended slices with and without matching sizes), seal / unseal, rebind '
           'with 0-3 paths incl. Insertion and MISSING, clone, construction), state-relative targets, '
           'boundary-biased indices (len+d, -len+d), existing nodes offered as values (relocate-or-copy), '
           'change notification off in 0/25/90 % of the calls of a history. Non-trivial: at least 3 '
